@@ -63,6 +63,13 @@ def _random_order(rng, m=None, allow_Kgtm=True, families=None):
     for _ in range(50):
         f = str(rng.choice(fams))
         if f == "orthant":
+            if rng.random() < 0.3:
+                # an axis-aligned cone that is not the positive orthant: some objectives are minimised (negative rows) and the
+                # facet rows come in another order — seeded/U02 (closed-form paths for "one non-zero entry per row")
+                W = np.diag(rng.choice([-1.0, 1.0], size=m))[rng.permutation(m)]
+                if (W.sum(axis=0) > 0).all() and rng.random() < 0.7:
+                    W[0] = -W[0]
+                return f"signed-orthant{m}", make_order("W", W=W)
             return f"orthant{m}", make_order("orthant", m=m)
         if f == "theta" and m == 2:
             th = float(rng.choice(THETAS))
@@ -146,7 +153,13 @@ def rect_pair(rng, m, mode=None):
         h1[:] = scale * 1e-4
         h1[k] = scale * 3
         c2 = c1 + rng.normal(size=m) * scale
-    return c1 - h1, c1 + h1, c2 - h2, c2 + h2, mode, scale
+    lo1, hi1, lo2, hi2 = c1 - h1, c1 + h1, c2 - h2, c2 + h2
+    if rng.random() < 0.1:
+        # objectives in different units (not standardised): one factor per coordinate, 1e-3 ... 1e6
+        f = 10.0 ** rng.integers(-3, 7, size=m)
+        lo1, hi1, lo2, hi2 = lo1 * f, hi1 * f, lo2 * f, hi2 * f
+        mode = mode + "+mixed-units"
+    return lo1, hi1, lo2, hi2, mode, scale
 
 
 def ell_pair(rng, m, mode=None):
